@@ -14,6 +14,7 @@ import (
 type NetWorld struct {
 	Scripts  []FlowScript // by order of flow appearance (cycled)
 	Noise    []NoiseItem
+	Muts     []MutSpec
 	Strict   bool // whether quoted-source perturbations are must-reject
 	Sack     *SackServer
 	flows    map[string]*flowSt
@@ -106,6 +107,24 @@ func (n *NetWorld) OnProbe(w *Wire, sink int, raw []byte, p *Probe, perr error, 
 			out = append(out, Sched{Delay: us(h.DelayUs), Data: data, Tag: tag})
 			for _, d := range h.DupsUs {
 				out = append(out, Sched{Delay: us(d), Data: data, Tag: tag})
+			}
+		}
+	}
+	if len(n.Muts) > 0 {
+		var base []byte
+		for _, s := range out {
+			if s.Tag.Class == "genuine" || s.Tag.Class == "sack-unsupported" {
+				base = s.Data
+				break
+			}
+		}
+		if base == nil {
+			ra := routerAddr(p.IP.V6, "", fs.idx, ttl)
+			base = icmpError(ra, p.IP.Src, FormSpec{}, quoteOf(raw, FormSpec{}))
+		}
+		for _, m := range n.Muts {
+			if m.Anchor == ttl {
+				out = append(out, Sched{Delay: us(m.DelayUs), Data: ApplyMut(base, m.Ops), Tag: Tag{Class: "raw", Flow: fs.key, CreditTTL: ttl, CausedBy: ttl}})
 			}
 		}
 	}
@@ -419,8 +438,14 @@ func (s *SackServer) synAcks(n *NetWorld, remote netip.AddrPort) []Sched {
 		data := tcpReply(src.Addr(), src.Port(), dst.Addr(), dst.Port(), c.ServerISN^0x55, c.ClientNxt+0x01000000, flags, opts)
 		out = append(out, Sched{Delay: us(c.SynAckUs) / 2, Data: data, Tag: Tag{Class: "perturbed", MustReject: true, Field: "synack-" + x.Kind, Flow: key, ID: i}})
 	}
+	genuineSynAck := tcpReply(s.Addr.Addr(), s.Addr.Port(), remote.Addr(), remote.Port(), c.ServerISN, c.ClientNxt, TCPSyn|TCPAck, opts)
+	for _, m := range n.Muts {
+		if m.Anchor == 0 {
+			out = append(out, Sched{Delay: us(m.DelayUs), Data: ApplyMut(genuineSynAck, m.Ops), Tag: Tag{Class: "raw", Flow: key}})
+		}
+	}
 	if !c.NoSynAck {
-		data := tcpReply(s.Addr.Addr(), s.Addr.Port(), remote.Addr(), remote.Port(), c.ServerISN, c.ClientNxt, TCPSyn|TCPAck, opts)
+		data := genuineSynAck
 		out = append(out, Sched{Delay: us(c.SynAckUs), Data: data, Tag: Tag{Class: "handshake", Flow: key}})
 	}
 	return out
